@@ -42,8 +42,8 @@ import (
 )
 
 type vkScenario struct {
-	Clients []string `json:"clients"` // arrival order
-	Scope   int      `json:"scope"`   // scope the authority declares (0 = global)
+	Clients []string `json:"clients"`          // arrival order
+	Scope   int      `json:"scope"`            // scope the authority declares (0 = global)
 	NoWire  bool     `json:"nowire,omitempty"` // the dial gate stays open: no W events (4-client tuples of the thorough tier)
 }
 
@@ -79,7 +79,7 @@ type vkWorld struct {
 	overlap  int // max number of clients simultaneously inside the chain at a settled point
 	trace    []string
 	digests  []string
-	upstream []string // label of every upstream www query of the concurrent phase, in arrival order
+	upstream []string       // label of every upstream www query of the concurrent phase, in arrival order
 	relStep  map[string]int // label -> step at which the authority released the reply made for it
 	cachePh  []vkCacheAsk
 }
@@ -511,6 +511,16 @@ func vkRun(lab *vkLab, pl *vkPipe, sc vkScenario, choose func(depth int, enabled
 			_ = lab.geo.reply(h, sc.Scope)
 		}
 		lab.gate.open()
+		// an aborted run leaves clients inside the chain: let them finish before the next world takes its baseline
+		for limit := time.Now().Add(5 * time.Second); w.inside() > 0 && time.Now().Before(limit); {
+			time.Sleep(200 * time.Microsecond)
+			for _, h := range lab.geo.unanswered() {
+				lab.geo.mu.Lock()
+				h.answered = true
+				lab.geo.mu.Unlock()
+				_ = lab.geo.reply(h, sc.Scope)
+			}
+		}
 	}()
 	for depth := 0; ; depth++ {
 		en := w.enabled()
@@ -590,15 +600,25 @@ func vkMadeFor(a string) string {
 	return vkLabelFor(subnet, bits, true)
 }
 
-func vkFixedOrder(events []string) func(int, []string) (string, error) {
+// vkFixedOrder replays a recorded order. lenient (replay files, possibly run against a changed sdns): once the
+// recorded order cannot be followed any further (an event is not enabled, or events remain enabled after its end)
+// the run is completed with the first enabled event each time.
+func vkFixedOrder(events []string, lenient bool) func(int, []string) (string, error) {
+	off := false
 	return func(depth int, en []string) (string, error) {
+		if !off && depth < len(events) {
+			for _, e := range en {
+				if e == events[depth] {
+					return e, nil
+				}
+			}
+		}
+		if lenient {
+			off = true
+			return en[0], nil
+		}
 		if depth >= len(events) {
 			return "", &vkHarnessErr{fmt.Sprintf("recorded order ends at step %d but %v are still enabled", depth, en)}
-		}
-		for _, e := range en {
-			if e == events[depth] {
-				return e, nil
-			}
 		}
 		return "", &vkHarnessErr{fmt.Sprintf("recorded event %s is not enabled at step %d (enabled %v)", events[depth], depth, en)}
 	}
@@ -679,7 +699,7 @@ func vkConfirm(lab *vkLab, sc vkScenario, events []string, key string, times int
 		if err != nil {
 			return false, "fresh pipeline: " + err.Error()
 		}
-		res, err := vkRun(lab, pl, sc, vkFixedOrder(events))
+		res, err := vkRun(lab, pl, sc, vkFixedOrder(events, false))
 		pl.close()
 		if err != nil {
 			return false, fmt.Sprintf("re-run %d: %v", i+1, err)
@@ -719,7 +739,7 @@ func TestVerifC19Shared(t *testing.T) {
 			return
 		}
 		defer pl.close()
-		res, err := vkRun(lab, pl, rp.Scenario, vkFixedOrder(rp.Events))
+		res, err := vkRun(lab, pl, rp.Scenario, vkFixedOrder(rp.Events, true))
 		if err != nil {
 			c.HarnessError(err.Error())
 			return
@@ -755,29 +775,31 @@ func TestVerifC19Shared(t *testing.T) {
 		if !c.Mine(i) || (only != "" && sc.String() != only) {
 			continue
 		}
-		var stack []vkFrame
-		for {
-			if c.OverBudget() {
-				c.Cap("time budget reached before every event order was executed")
-				return
-			}
-			nondet := ""
-			choose := func(depth int, en []string) (string, error) {
-				if depth < len(stack) {
-					if !vkSameSet(stack[depth].enabled, en) {
-						nondet = fmt.Sprintf("%s: enabled set at step %d changed between executions of the same prefix: %v vs %v", sc, depth, stack[depth].enabled, en)
-						return "", &vkHarnessErr{nondet}
-					}
-					return en[stack[depth].idx], nil
-				}
-				stack = append(stack, vkFrame{enabled: append([]string{}, en...)})
-				return en[0], nil
-			}
-			res, err := vkRun(lab, pl, sc, choose)
+		// every order of one scenario is executed before anything is counted: should two executions of the same
+		// prefix ever disagree on what is enabled (a settle disturbed by the machine), the scenario starts over
+		var results []*vkRunResult
+		for attempt := 1; ; attempt++ {
+			var capped bool
+			var nondet string
+			results, nondet, capped, err = vkExploreScenario(lab, pl, sc, c.OverBudget)
 			if err != nil {
 				c.HarnessError(err.Error())
 				return
 			}
+			if capped {
+				c.Cap("time budget reached before every event order was executed")
+				return
+			}
+			if nondet == "" {
+				break
+			}
+			c.Add("scenario_restarts", 1)
+			if attempt >= 3 {
+				c.HarnessError(nondet)
+				return
+			}
+		}
+		for _, res := range results {
 			runs++
 			c.Add("evaluations", 1)
 			c.Add("traces", 1)
@@ -812,14 +834,6 @@ func TestVerifC19Shared(t *testing.T) {
 				}
 				c.Violation(f.key, vkMessage(sc, res, f), vkReplay{Scenario: sc, Events: res.events})
 			}
-			// next order: deepest frame with an untried alternative
-			for len(stack) > 0 && stack[len(stack)-1].idx+1 >= len(stack[len(stack)-1].enabled) {
-				stack = stack[:len(stack)-1]
-			}
-			if len(stack) == 0 {
-				break
-			}
-			stack[len(stack)-1].idx++
 		}
 		// a fresh pipeline now and then: each one leaves a few background goroutines behind, none accumulates state
 		if runs > 0 && runs%4000 == 0 {
@@ -832,6 +846,44 @@ func TestVerifC19Shared(t *testing.T) {
 	}
 	c.Add("snapshots", int64(vkSnapCount))
 	c.Add("pipelines_built", int64(lab.builds))
+}
+
+// vkExploreScenario executes every maximal event order of sc (depth-first over the enabled sets observed at
+// the settled points, one execution per order). nondet != "": two executions of the same prefix disagreed.
+func vkExploreScenario(lab *vkLab, pl *vkPipe, sc vkScenario, overBudget func() bool) (results []*vkRunResult, nondet string, capped bool, err error) {
+	var stack []vkFrame
+	for {
+		if overBudget() {
+			return nil, "", true, nil
+		}
+		choose := func(depth int, en []string) (string, error) {
+			if depth < len(stack) {
+				if !vkSameSet(stack[depth].enabled, en) {
+					nondet = fmt.Sprintf("%s: enabled set at step %d changed between executions of the same prefix: %v vs %v", sc, depth, stack[depth].enabled, en)
+					return "", &vkHarnessErr{nondet}
+				}
+				return en[stack[depth].idx], nil
+			}
+			stack = append(stack, vkFrame{enabled: append([]string{}, en...)})
+			return en[0], nil
+		}
+		res, err := vkRun(lab, pl, sc, choose)
+		if nondet != "" {
+			return nil, nondet, false, nil
+		}
+		if err != nil {
+			return nil, "", false, err
+		}
+		results = append(results, res)
+		// next order: deepest frame with an untried alternative
+		for len(stack) > 0 && stack[len(stack)-1].idx+1 >= len(stack[len(stack)-1].enabled) {
+			stack = stack[:len(stack)-1]
+		}
+		if len(stack) == 0 {
+			return results, "", false, nil
+		}
+		stack[len(stack)-1].idx++
+	}
 }
 
 func vkMessage(sc vkScenario, res *vkRunResult, f vkFinding) string {
